@@ -643,7 +643,8 @@ def run_malformed(ctx, ncases):
                               '%s.%s%s raises %s but is not refused without side effect: views %s changed and now disagree with each other'
                               % (CLSNAME[kind], meth, repr(args), exc, changed),
                               dict(input=desc, raised=exc, changed_views=changed, before=before, after=after), True,
-                              site=CLSNAME[kind] + '.' + meth, cls='non-integer-argument-side-effect')
+                              site=CLSNAME[kind] + '.' + ('add_edge' if meth == 'add_edges_from' else meth),
+                              cls='non-integer-argument-side-effect')
         else:
             ctx.tally('malformed outcome', 'accepted')
             # an accepted value that equals an integer must behave as that integer
